@@ -90,6 +90,15 @@ CHECKS = {
         'the author\'s recorded value is checked against an exact evaluation of the formula on the same scripted sample (same-sample pairing).',
    note=PROOF_NOTE + ' Partial: evaluating the two formulas in floating point is outside the model (their per-sample values are inputs); a guard band of relative width 1e-9 around the tolerance boundary is excluded where the float computation of the norm/product is not exact (counted in the evidence).',
    technique='Lean 4 proof (loop invariant of the failure counter, squared-norm characterisation of the tolerance test) + correspondence on recorded samples', design='§6 C04'),
+ 'C19': dict(
+   text='perform_summation (limit sorting, infinity replacement by the cutoff, parity start adjustment, inclusive range, left-to-right sum), evaluate_sum (dummy-variable clash, complex and non-integer limits, factorial-dependent cutoff), '
+        'input_positions validation, input structuring with author defaults, blank-field and dummy-variable validation and the author/student error split of gen_evaluations modelled literally, for an arbitrary summand f : Z -> V into any commutative monoid; '
+        'proved for all limits, parities and summands: the result is the sum of f over exactly the integers between the two limits inclusive (odd / even ones only when configured) whatever the order of the limits; exchanging the limits changes nothing (infinities included); '
+        'an infinite limit is the cutoff; index shift, reversal and single-term perturbation laws; complex, non-integer and doubly infinite limits, a clashing or invalid dummy variable and blank fields are errors of the stated classes; author failures are configuration errors; the verdict is the C04 rule on the two sums. '
+        'Tie: SumGrader.perform_summation run on exact Fraction summands for all limit pairs in a window in both orders x parities and for infinite limits, compared exactly with the model; SumGrader calls with scripted samples over sum-preserving and sum-changing rewrites '
+        '(swap, rename, shift, reversal, perturbation, off-by-one, scaling around a percentage band) x subsets of input_positions against an exact reference sum; error inputs and input_positions grids against the model.',
+   note=PROOF_NOTE + ' The summand and limit expressions are evaluated by the real evaluator (outside the model); renaming invariance is checked on the implementation, not proved (the model\'s summand is already a function). IntegralGrader (scipy) is not exercised.',
+   technique='Lean 4 proof (Finset-sum characterisation of the Python range loop, re-indexing lemmas) + exact correspondence + reference-sum oracle', design='§6 C19'),
  'C11': dict(
    text='ItemGrader.__call__ / AbstractGrader.__call__ modelled as a state machine over the grader object (stored answers, inferring flag, log flag, debug log) with validation, text check and grading as parameters; proved by induction over ANY call history '
         '(including calls that raise in validation, in the input check or in grading): the next call returns what a freshly constructed grader returns for the current expect value or the last successfully supplied one; '
